@@ -72,4 +72,41 @@ theorem round_unpack_pack (O : FloatOracle) (ty : FTy) (x : O.F) (hx : O.round t
   show O.round ty (O.round ty x) = x
   rw [hx, hx]
 
+/-! ## `builtin.FloatData` -/
+
+/-- The laws of CPython and `struct` that `floatdata_roundtrip` assumes in addition to
+`Lawful.parse_neg`/`pack_length` (sampled against the running interpreter by the check):
+a binary64 is 8 bytes, `struct.unpack("<d", struct.pack("<d", x))` is bit-identical to `x`
+(NaN payloads and signs included), and `repr` of a finite float — with `.0` spliced in before the
+exponent when it has no `.` — is one float literal that `float()` reads back bit-identically. -/
+structure LawfulData (O : FloatOracle) : Prop where
+  size_f64 : O.size .f64 = 8
+  bits_roundtrip : ∀ x, O.unpack .f64 (O.pack .f64 x) = x
+  fd_shape : ∀ x, O.finite x → floatLitText (fdText (O.repr x))
+  fd_exact : ∀ x, O.finite x → O.parse (fdText (O.repr x)) = x
+
+/-- a decimal float text is read back as `float(text)` -/
+theorem parseFloatData_text (O : FloatOracle) (hO : Lawful O) (s : List Char)
+    (h : floatLitText s) : parseFloatData O s = some (O.parse s) := by
+  unfold floatLitText at h
+  have hl := lexNumber_floatLit _ h
+  unfold parseFloatData
+  rcases stripMinus_cases s with ⟨t, rfl, hs⟩ | hs
+  · rw [hs] at hl
+    simp only [hs, hl, if_true, hO.parse_neg]
+  · rw [hs] at hl
+    simp only [hs, hl, Bool.false_eq_true, if_false]
+
+/-- a hexadecimal bit pattern of 8 bytes is read back as `struct.unpack("<d", bytes)` -/
+theorem parseFloatData_hex (O : FloatOracle) (hs : List Char) (bs : List UInt8)
+    (hne : hs ≠ []) (hall : ∀ c ∈ hs, isHexDigit c = true) (hval : ofDigits 16 hs = unpackLEU bs)
+    (hlen : bs.length = 8) :
+    parseFloatData O ('0' :: 'x' :: hs) = some (O.unpack .f64 bs) := by
+  have hl := lexNumber_hex hs hne hall
+  have hsm : stripMinus ('0' :: 'x' :: hs) = (false, '0' :: 'x' :: hs) := rfl
+  unfold parseFloatData
+  simp only [hsm, hl, Bool.not_false, Bool.and_true, if_true, hval]
+  rw [← hlen, toBytesLE?_unpackLEU]
+  rfl
+
 end Xdsl.Literals
